@@ -33,7 +33,7 @@ if a == False:
     print(1)
         """,
             """
-if a == False:
+if a is False:
     print(1)
         """,
         ),
@@ -43,8 +43,8 @@ print(q == True)
 print(k != True)
         """,
         """
-print(q == True)
-print(k != True)
+print(q is True)
+print(k is not True)
         """,
         ),
         (
@@ -53,8 +53,8 @@ print(q == True is x)
 print(k != True != q != None is not False)
         """,
         """
-print(q == True is x)
-print(k != True != q is not None is not False)
+print(q is True is x)
+print(k is not True != q is not None is not False)
         """,
     ),)
 
